@@ -1,0 +1,34 @@
+//go:build verif
+
+package model
+
+// Contracts for gocv (comment-only; see /verif/DESIGN.md).  No executable code.
+
+// ISO 32000-1 8.3.4: a point is the row vector [x y 1]; [x' y' 1] = [x y 1] x M with M = [a b c d e f]:
+//   x' = a*x + c*y + e,  y' = b*x + d*y + f.
+//@ spec func mtx(m [6]float64, x real, y real) real = m[0]*x + m[2]*y + m[4]
+//@ spec func mty(m [6]float64, x real, y real) real = m[1]*x + m[3]*y + m[5]
+
+//@ func (Matrix) Transform results (r)
+//@   property C08
+//@   ensures r.X == mtx(m, p.X, p.Y) && r.Y == mty(m, p.X, p.Y)
+
+// "m.Multiply(other)" is m x other: apply m first, then other.
+//@ func (Matrix) Multiply results (r)
+//@   property C08
+//@   ensures forall x real, y real :: mtx(r, x, y) == mtx(other, mtx(m, x, y), mty(m, x, y)) && mty(r, x, y) == mty(other, mtx(m, x, y), mty(m, x, y))
+
+//@ func Identity results (r)
+//@   property C08
+//@   flags inline
+//@   ensures forall x real, y real :: mtx(r, x, y) == x && mty(r, x, y) == y
+
+//@ func Translate results (r)
+//@   property C08
+//@   flags inline
+//@   ensures forall x real, y real :: mtx(r, x, y) == x + tx && mty(r, x, y) == y + ty
+
+//@ func Scale results (r)
+//@   property C08
+//@   flags inline
+//@   ensures forall x real, y real :: mtx(r, x, y) == x * sx && mty(r, x, y) == y * sy
